@@ -33,6 +33,7 @@ SPECIAL_TITLES = [
     "C++", "#1", "100%", "\"Heroes\"", "C++ C#", "$5 100%", "'n' \"roll\"", "C++ and C#", "#1 best seller", "100% cotton", "\"Heroes\" of might", "$5 off 100%", "it's a 'quoted' word", "+plus+ -minus-",
     "Mississippi to Tennessee", "assesses 10000 bananas", "aaaa bbbb", "abababab cdcdcd", "1111 2222 3333", "xxxxx", "zzz zz z",
     "a b c d", "x y", "q", "counterrevolutionaries unite", "donaudampfschifffahrtsgesellschaft", "pneumonoultramicroscopicsilicovolcanoconiosis",
+    " leading space", "\ttabbed title", "trailing space ", "  two  spaces  ", "\u00a0nbsp first",
     "ftp server", "html css xml", "bbq grill", "tv dvd hdmi", "xl xxl", "rhythm myths", "psst shh",
     "Rock'n'roll vinyl", "Men's leather belt", "50's diner", "a+b=c", "AC/DC tribute", "o'clock", "l'été d'avant", "x_y_z",
     "t-shirt xl", "wi-fi router", "e-mail", "micro biology", "night light", "power-bank usb", "3d printer 4k", "usb2 hub", "no.5 chanel",
@@ -334,6 +335,11 @@ def gen_span_cases(lang, rnd, titles, toks, ncases):
             tok = toks.get((lang, t))
             for w in (words_of(tok) if tok else []):
                 w = text(w)
+                if len(w) >= 12:
+                    i1 = rnd.randint(2, len(w) - 6)
+                    i2 = rnd.randint(i1 + 2, len(w) - 2)
+                    qs.append(w[:i1] + w[i1 + 1:i2] + w[i2 + 1:])            # two letters missing
+                    qs.append(w[:i1] + w[i1 + 1:i2] + w[i2 + 1:] + " ")
                 if len(w) >= 6:
                     for cut in (1, 2, 3):
                         qs.append(w[:len(w) - cut] + rnd.choice([" ", ",", "!"]))
@@ -398,13 +404,16 @@ def gen_store_relations(prop, lang, rnd, titles, toks, ncases, big=False):
         rt = distinct_ratings(rnd, n, hi=2 ** 31 - 1 if rnd.random() < 0.2 else 1000)
         for i, t in enumerate(recs):
             c.add(sid, 100 + i, t, rt[i])
-        qs = [random_query(lang, rnd, recs, toks) for _ in range(3)]
+            if i == n // 2 and rnd.random() < 0.5:
+                c.search(sid, "")              # the list of top-rated records was asked for while the store was filling
+        qs = [random_query(lang, rnd, recs, toks) for _ in range(3)] + ([""] if rnd.random() < 0.5 else [])
         if big:
             rare = [x for t in recs for x in t.split() if x.lower() != w.lower() and len(x) >= 3]
             qs = [w, w[:3]] + qs[:1] + ([w + " " + rnd.choice(rare), rnd.choice(rare) + " " + w] if rare else [])
-        limits = list(range(0, n + 3)) if not big else [1, 2, 3]
+        limits = [None] + (list(range(0, n + 3)) if not big else [1, 2, 3])     # None: the limit the store was built under
         for lim in limits:
-            c.op(op="limit", sid=sid, limit=lim)
+            if lim is not None:
+                c.op(op="limit", sid=sid, limit=lim)
             for q in qs:
                 want = ["qtok", "singles", "unlimited"]
                 kw = {}
@@ -486,6 +495,9 @@ def gen_histories(prop, lang, rnd, titles, toks, ncases, length=14, adversarial=
                     q = rnd.choice(seps)
                 elif adversarial and rnd.random() < 0.4:
                     q = rnd.choice(ADVERSARIAL)
+                elif shared and prop == "C05" and rnd.random() < 0.5:
+                    q = rnd.choice([shared[1:2] + shared[0:1] + shared[2:3], shared[1:2] + shared[0:1] + shared[2:4],
+                                    shared[1:4], rnd.choice(script_letters(lang)) + shared[1:3]])
                 elif shared and rnd.random() < 0.6:
                     q = rnd.choice([shared, shared[:2], shared[:3], shared + " ",
                                     shared[1:2] + shared[0:1] + shared[2:3], shared[1:2] + shared[0:1] + shared[2:],
@@ -500,7 +512,8 @@ def gen_histories(prop, lang, rnd, titles, toks, ncases, length=14, adversarial=
 def gen_marker_cases(lang, rnd, titles, toks, ncases):
     """C02 / C09: searches with sentinel markers plus the same search with other marker pairs"""
     cases = []
-    marker_pool = [("", ""), ("[", "]"), ("<em>", "</em>"), ("{{", "}}"), ("*", "*"), ("", "|"), ("⁣", "⁣")]
+    marker_pool = [("", ""), ("[", "]"), ("<em>", "</em>"), ("{{", "}}"), ("*", "*"), ("", "|"), ("⁣", "⁣"),
+                   ("\u0000<", ">\u0000"), ("<\u0000b>", "</b>")]
     for _ in range(ncases):
         n = rnd.randint(1, 6)
         recs = [rnd.choice(titles) if rnd.random() < 0.8 else rnd.choice(ADVERSARIAL) for _ in range(n)]
@@ -811,6 +824,7 @@ def gen_dl_cases(rnd, tier):
         c = Case("C16", "random-history")
         inst = 1
         c.op(op="dlnew", inst=inst)
+        size_now = 22
         steps = 8 if k % 8 == 0 else rnd.randint(3, 8)
         for s in range(steps):
             long_turn = (s % 2 == 0) == (k % 2 == 0)
@@ -848,6 +862,18 @@ def gen_dl_cases(rnd, tier):
                     c.ops.append(dl_op(99, a[:i], b[:j], lambda ch: cmap[ch], cells_all=0))
             small = (len(a) + 1) * (len(b) + 1) <= 200
             c.ops.append(dl_op(inst, a, b, lambda ch: cmap[ch], cells_all=200, sample=0 if small else 12, phase=rnd.randint(0, 1000)))
+            need = max(len(a), len(b)) + 2
+            if need > size_now:
+                # the matrix has just grown (DamLev.tla, GrownSize): words whose length sits right at the new dimension
+                size_now = need + need // 2
+                if size_now <= 60 or tier != "quick":
+                    for ln in (size_now - 3, size_now - 2, size_now - 1, size_now):
+                        wl = "".join(rnd.choice(sub) for _ in range(ln))
+                        c.ops.append(dl_op(inst, wl[:5], wl, lambda ch: cmap[ch], cells_all=0))
+                        c.ops.append(dl_op(inst, wl, wl[:4], lambda ch: cmap[ch], cells_all=0))
+                        need2 = ln + 2
+                        if need2 > size_now:
+                            size_now = need2 + need2 // 2
             c.ops.append(dl_op(inst, b, a, lambda ch: cmap[ch], cells_all=0))
             c.ops.append(dl_op(inst, a, b, lambda ch: cmap[ch], cells_all=0, any_classes=True))
             c.ops.append(dl_op(inst, a, b, lambda ch: cmap[ch], cells_all=0))
@@ -1032,6 +1058,8 @@ def gen_registry_cases(rnd, ncases, pools, toks, length=30):
                 live[i] = dict(lang=lg, titles=[])
                 c.op(op="r_create", id=i, lang=lg)
                 c.op(op="new", sid=1000 + i, lang=lg)
+                c.op(op="r_markers", id=i, l=SENT_L, r=SENT_R)
+                c.op(op="markers", sid=1000 + i, l=SENT_L, r=SENT_R)
             shared_titles = [rnd.choice(pools[la]), rnd.choice(pools[lb]), rnd.choice(["Straße Größe", "université café", "running shoes", "ёлка мёд"])]
             for t in shared_titles:
                 for i in (1, 2):
@@ -1045,6 +1073,26 @@ def gen_registry_cases(rnd, ncases, pools, toks, length=30):
                         for i in (1, 2, 1):
                             c.search(1000 + i, q, tag="sa%d" % i, want=["qtok", "fresh"], rep=1)
                             c.op(op="r_search", id=i, q=cps(q))
+        if rnd.random() < 0.35 and 7 not in live:
+            # one id holding many records that share a word, under limits above the default buffer capacity of 10
+            lg = rnd.choice(LANGS)
+            live[7] = dict(lang=lg, titles=[])
+            c.op(op="r_create", id=7, lang=lg)
+            c.op(op="new", sid=1007, lang=lg)
+            shared = rand_word(rnd, script_letters(lg), 5, 7)
+            rare = rand_word(rnd, script_letters(lg), 6, 8)
+            for k in range(rnd.randint(14, 30)):
+                t = shared + " " + (rare if k < 3 else rand_word(rnd, script_letters(lg), 3, 6)) + " %d" % k
+                c.op(op="r_add", id=7, rid=nrid, title=cps(t), rating=nrid)
+                c.op(op="add", sid=1007, id=nrid, title=cps(t), rating=nrid)
+                live[7]["titles"].append(t)
+                nrid += 1
+            for lim, q in ((rnd.choice([12, 15]), shared), (None, rare), (rnd.choice([25, 40]), shared), (3, shared), (11, shared[:2])):
+                if lim is not None:
+                    c.op(op="r_limit", id=7, limit=lim)
+                    c.op(op="limit", sid=1007, limit=lim)
+                c.search(1007, q, tag="sa7", want=["qtok", "fresh"], rep=1)
+                c.op(op="r_search", id=7, q=cps(q))
         for _s in range(length):
             r = rnd.random()
             if (r < 0.15 or not live) and len(live) < len(ids):
@@ -1053,6 +1101,9 @@ def gen_registry_cases(rnd, ncases, pools, toks, length=30):
                 live[i] = dict(lang=lang, titles=[])
                 c.op(op="r_create", id=i, lang=lang)
                 c.op(op="new", sid=1000 + i, lang=lang)
+                if rnd.random() < 0.5:
+                    c.op(op="r_markers", id=i, l=SENT_L, r=SENT_R)
+                    c.op(op="markers", sid=1000 + i, l=SENT_L, r=SENT_R)
                 continue
             i = rnd.choice(list(live))
             L = live[i]
@@ -1088,9 +1139,18 @@ def gen_registry_cases(rnd, ncases, pools, toks, length=30):
                     c.search(1000 + i, q, tag="sa%d" % i, want=["qtok", "fresh"])
                     c.op(op="r_search", id=i, q=cps(q))
             elif r < 0.7:
-                l, rr = rnd.choice([("[", "]"), ("", ""), ("<b>", "</b>"), ("{{", "}}")])
+                l, rr = rnd.choice([("[", "]"), ("", ""), ("<b>", "</b>"), ("{{", "}}"), (chr(0xE000), chr(0xE001)), (chr(0xE000), chr(0xE001))])
                 c.op(op="r_markers", id=i, l=cps(l), r=cps(rr))
                 c.op(op="markers", sid=1000 + i, l=cps(l), r=cps(rr))
+            elif r < 0.78 and L["titles"]:
+                # the store behind the id is emptied through using_store (public, though not part of the WASM API)
+                c.op(op="r_clear", id=i)
+                c.op(op="clear", sid=1000 + i)
+                gone = L["titles"]
+                L["titles"] = []
+                for q in ("", (rnd.choice(gone).split() or ["a"])[0]):
+                    c.search(1000 + i, q, tag="sa%d" % i, want=["qtok", "fresh"], rep=1)
+                    c.op(op="r_search", id=i, q=cps(q))
             else:
                 q = random_query(L["lang"], rnd, L["titles"], toks) if L["titles"] and rnd.random() < 0.8 else rnd.choice(["", " ", "a", "zz"])
                 if last_q is not None and rnd.random() < 0.3:
